@@ -669,6 +669,12 @@ func (c *FailoverController) executeFailback(reason string, timerGen uint64) {
 	c.currentRole = newRole
 	c.state = FailoverStateNormal
 	c.lastRoleChange = time.Now()
+	// The role-change callback ran without the lock. If the partner failed meanwhile, its
+	// partner_down found this node still active and was dropped: act on it now, otherwise
+	// both nodes stay standby with nothing left to trigger a failover.
+	if !c.healthMonitor.IsPartnerHealthy() {
+		c.scheduleFailoverLocked()
+	}
 	c.mu.Unlock()
 
 	atomic.AddUint64(&c.failbacksCompleted, 1)
